@@ -195,6 +195,50 @@ func checkC15(c *Check) {
 		}
 	}
 
+	// ---- R7: acceptance only over a positive entitlement answer
+	c.Rule("R7", "authzSender accepts (returns a result without a reason) only on the path where the entitlement lookup answered true without an error – not from a cache, a default or an earlier verdict", 1)
+	if r != nil {
+		info := r.Info
+		isAz := calling("~/internal/authz.AuthorizeEmailUse")
+		azPts := r.Calls(isAz)
+		accepting := func(pt Pt) bool {
+			k, ret := r.F.Exit(pt)
+			if k == ExitFallOff {
+				return true
+			}
+			if ret == nil {
+				return false
+			}
+			if len(ret.Results) != 1 {
+				return true
+			}
+			return !c15Refusal(c.P, r.FI, info, ret.Results[0], 0)
+		}
+		msg := ""
+		if len(azPts) != 1 {
+			msg = "undecided: expected exactly one entitlement lookup"
+		} else {
+			ap := azPts[0]
+			as, _ := ap.Node().(*ast.AssignStmt)
+			var okVar, errVar types.Object
+			if as != nil && len(as.Lhs) == 2 {
+				okVar, errVar = objOf(info, as.Lhs[0]), objOf(info, as.Lhs[1])
+			}
+			if okVar == nil || errVar == nil {
+				msg = "undecided: the answer of the entitlement lookup is not kept in two variables"
+			} else {
+				if path, f := r.F.Reach(Query{From: r.Entry(), Inclusive: true, Target: accepting, Avoid: isPt(azPts)}); f {
+					msg = "the sender is accepted without asking the entitlement mapping: " + r.F.Describe(path)
+				} else if path, f := r.F.ReachRefined(ap, okVar, true, true, accepting, isPt(azPts)); f {
+					msg = "the sender is accepted although the entitlement lookup answered false: " + r.F.Describe(path)
+				} else if path, f := r.F.ReachRefined(ap, errVar, false, false, accepting, isPt(azPts)); f {
+					msg = "the sender is accepted although the entitlement lookup failed: " + r.F.Describe(path)
+				}
+			}
+		}
+		c.Hold("R7", "authzSender:accept-only-if-entitled", r.FI.Decl.Pos(), msg == "", msg)
+	}
+
 	// ---- R2
 	c.Rule("R2", "CheckSender and CheckBody pass the session's authenticated user to authzSender; CheckBody accepts only over an accepting authorization result", 2)
 	isAuthz := calling("~/" + authzSenderRel + ".state.authzSender")
@@ -389,4 +433,53 @@ func checkC15(c *Check) {
 		path, f := ra.F.Reach(Query{From: ra.Entry(), Inclusive: true, Target: accept, AvoidEdge: eqOK})
 		c.Hold("R6", "AuthorizeEmailUse:equality-only", ra.FI.Decl.Pos(), !f && entObj != nil && addrObj != nil, "the entitlement lookup can accept without an equality between an entry and the address / its domain / \"*\" (e.g. a suffix or prefix match admits foreign addresses that merely end with an entitled one): "+ra.F.Describe(path))
 	}
+}
+
+
+// c15Refusal: the expression is a check result carrying a reason – X.Apply(CheckResult{Reason: non-nil}), a
+// CheckResult literal with a non-nil Reason, or a call of a function of the same package all of whose returns are.
+func c15Refusal(p *Prog, fi *FuncInfo, info *types.Info, e ast.Expr, depth int) bool {
+	e = ast.Unparen(e)
+	hasReason := func(n ast.Node) bool {
+		found := false
+		ast.Inspect(n, func(x ast.Node) bool {
+			if kv, ok := x.(*ast.KeyValueExpr); ok {
+				if id, ok := kv.Key.(*ast.Ident); ok && id.Name == "Reason" && !isNilIdent(info, kv.Value) {
+					found = true
+				}
+			}
+			return true
+		})
+		return found
+	}
+	switch x := e.(type) {
+	case *ast.CompositeLit:
+		return hasReason(x)
+	case *ast.CallExpr:
+		if methodName(x) == "Apply" && len(x.Args) == 1 {
+			if c15Refusal(p, fi, info, x.Args[0], depth) {
+				return true
+			}
+		}
+		fn := callee(info, x)
+		if fn == nil || depth >= 2 || fn.Pkg() == nil || fn.Pkg() != fi.Obj.Pkg() {
+			return false
+		}
+		d := p.DeclOf(fn)
+		if d == nil || d.Decl.Body == nil {
+			return false
+		}
+		all, n := true, 0
+		inspectNoLit(d.Decl.Body, func(y ast.Node) bool {
+			if ret, ok := y.(*ast.ReturnStmt); ok {
+				n++
+				if len(ret.Results) != 1 || !c15Refusal(p, d, d.Info(), ret.Results[0], depth+1) {
+					all = false
+				}
+			}
+			return true
+		})
+		return all && n > 0
+	}
+	return false
 }
